@@ -232,6 +232,26 @@ _r10 = {
 }
 for _k, _v in _r10.items():
     _borrow[_k] = (_borrow.get(_k, "") + " " + _v).strip()
+# rules added after the eleventh seeding round (DESIGN.md 10.16)
+_r11 = {
+ "C01": "Also: FetchFromArchive tests the first slot's time for zero only, and touches the page buffer only through baseInterval and the slot reader.",
+ "C03": "Also: Timestamp.Add compares the step back with the time in the unsigned domain.",
+ "C04": "Also: Timestamp.Add compares in the unsigned domain; evaluates the retention-31-bits obligation of C07.R4.",
+ "C05": "Also evaluates the always-reads-the-file obligation of C06.R6 (the ring's phase is answered from the page buffer on every call).",
+ "C06": "Also: baseInterval answers from the page buffer on every call; evaluates C02.R3 and C02.R5.",
+ "C07": "Also evaluates the retry-buffer obligation of C14.R5.",
+ "C08": "Also: the instant handed to the library is the clock reading itself; evaluates C02.R5.",
+ "C09": "Also: the instant handed to the library is the clock reading itself.",
+ "C10": "Also: the instant handed to the library is the clock reading itself.",
+ "C11": "Also: the instant handed to the library is the clock reading itself; evaluates C02.R5 and the globItemsRemote obligations of C12.R6.",
+ "C12": "Also evaluates the EqualTimeRangeAndStep obligation of C08.R2.",
+ "C13": "Also: no cmd function opens the file its parameters name more than once on a path.",
+ "C15": "Also evaluates the retry-buffer obligation of C14.R5.",
+ "C16": "Also evaluates the until-default obligations of diff and the flags-distinct obligations of sum and sum-copy.",
+ "C18": "Also: the -text-out file is opened appending or truncating; the instant handed to the library is the clock reading itself.",
+}
+for _k, _v in _r11.items():
+    _borrow[_k] = (_borrow.get(_k, "") + " " + _v).strip()
 for _k, _v in _borrow.items():
     _extra[_k] = (_extra.get(_k, "") + " " + _v).strip()
 _re = "Every property also evaluates <id>.RE: no failure is turned into success in the functions reachable from its entry points."
